@@ -284,12 +284,28 @@ fn main() {
             built.push((c.name.clone(), config.to_string(), pkg));
         }
     }
+    // thorough tier: case binaries (and their dep-info) of the seed-derived corpora of ANOTHER
+    // seed (case_t<seed>_*, case_u<seed>_*) are removed: each is 25 MB and a run at several
+    // seeds would otherwise keep them all. The fixed corpora are never touched.
+    if tier == "thorough" {
+        if let Ok(rd) = std::fs::read_dir(root.join("target/debug")) {
+            let live: Vec<String> = built.iter().map(|b| b.2.clone()).collect();
+            for e in rd.flatten() {
+                let n = e.file_name().to_string_lossy().to_string();
+                let stem = n.trim_end_matches(".d").to_string();
+                let seed_derived = stem.starts_with("case_t") || stem.starts_with("case_u");
+                if seed_derived && !live.contains(&stem) && e.path().is_file() {
+                    let _ = std::fs::remove_file(e.path());
+                }
+            }
+        }
+    }
     // workspace
     let mut ws = String::from("[workspace]\nresolver = \"3\"\nmembers = [\n");
     for m in &members {
         ws.push_str(&format!("    \"{}\",\n", m));
     }
-    ws.push_str("]\n\n[profile.dev]\nopt-level = 1\ndebug = 1\noverflow-checks = true\ndebug-assertions = true\n\n[profile.dev.package.\"*\"]\nopt-level = 1\n");
+    ws.push_str("]\n\n[profile.dev]\nopt-level = 1\ndebug = 1\noverflow-checks = true\ndebug-assertions = true\nincremental = false\n\n[profile.dev.package.\"*\"]\nopt-level = 1\n");
     write_if_changed(&cases.join("Cargo.toml"), &ws);
     write_if_changed(&cases.join(".cargo/config.toml"), &format!("[net]\noffline = true\n\n[build]\ntarget-dir = \"{}/target\"\nrustflags = [\"--cfg\", \"pilota_verif\"]\n", root.display()));
     let lock = std::fs::read_to_string(root.join("harness/Cargo.lock")).unwrap_or_default();
